@@ -29,6 +29,14 @@ CHECKS = {
    technique="TLA+ spec SubstQ.tla: exact-rational rate matrices of every model family, invariants (rows sum to zero, non-negative off-diagonals, unit rate, detailed balance, stationarity) model-checked with TLC over a parameter lattice; TLC-emitted exact Q replayed into the real models (q(), p_t vs mpmath expm of the spec's Q, consequences, batches, update histories); transliteration validated against TLC for off-lattice random and near-defective parameters",
    text="TLC proves the matrix invariants exactly on 54 lattice cases (JC69, GeneralJC69, HKY, GTR, general symmetric with every mapping on 3 states, general non-symmetric, empirical) and emits the exact normalised Q; the real models' q() must equal it (1e-12) and p_t(t) must equal expm(Qt) at six branch lengths (1e-9), plus rows/P(0)/semigroup/stationarity/detailed balance on the implementation's output, batched parameters vs slices, parameter-update histories on a live model, random parameters over 1e-4..1e4, near-defective non-reversible matrices, MG94 for the genetic codes against an independent structural definition and LG/WAG.",
    note="The TLA+ part decides the discrete structure and normalisation exactly; the matrix exponential itself is compared numerically against mpmath (30 digits) / numpy scaling-and-squaring: this is the numerical half stated in DESIGN 2.4. Genetic-code tables are taken from datatype.py."),
+ "C01": dict(level="model_checking", design="4/C01",
+   technique="TLA+ spec Pruning.tla (recursion over the transcribed post-order = definitional marginal, exact integers) model-checked with TLC over all ordered labelled trees x tip state sets; emitted cases replayed exactly into the five real kernels with the real tree model's post-order; model-level JSON TreeLikelihoodModels compared with the TLC-validated transliterated marginal using the spec's Q (C04) and category rates (C05)",
+   text="TLC proves pruning = marginal for every ordered labelled tree of 3 and 4 taxa (child order and leaf-index assignment vary), 4 states, 2 categories, all tip-set choices (27k states); each emitted case must come out of calculate_treelikelihood_discrete / _rescaled / _safe / tip_states / tip_states_rescaled (and a batched call) as the exact integer; 480 model-level cases cover JC69/HKY/GTR/general symmetric/non-symmetric x constant/invariant/Weibull(+inv) x unrooted/time tree + strict/variable clock x tip partials/ambiguities/tip states on every topology of 3..4 (thorough: ..6, random 7-8) taxa with alignments over the 18-symbol alphabet and repeated columns, at 1e-9.",
+   note="Exact integer matrices are not stochastic: the unknown-state column of the tip-state kernels is exercised at the model level only. Codon / amino-acid alphabets at the model level are not enumerated (kernels are alphabet-agnostic; rate matrices in C04). Reference matrices: mpmath expm (30 digits)."),
+ "C05": dict(level="exploration", design="4/C05",
+   technique="TLA+ spec SiteModel.tla: category layout / normalisation over exact rationals with quantile atoms and the lazy-cache state machine, model-checked with TLC; transliteration validated on emitted cases; real site models compared on a parameter grid, random points, batches and all set/read histories",
+   text="TLC checks probabilities sum to one, invariant category (rate 0, probability p), mean rate = mu and cache coherence over all histories of length 4 for 31 lattice cases; the real Constant/Invariant/Weibull site models are compared with the reference for K in 1..16, shapes 1e-2..1e2, invariant proportions, relative rates (1e-11), batched parameters vs slices and every set/read history of length 4 on a live object.",
+   note="The Weibull quantile is a transcendental leaf evaluated by the reference in double precision; the TLA+ part is the layout and normalisation algebra (thin), hence level exploration."),
 }
 
 PENDING = {}
